@@ -86,11 +86,32 @@ def _cases(shard):
                op('view', st.sampled_from(['keys'] + (['values', 'items'] if is_map else [])), st.none(), st.none(),
                   st.booleans(), st.booleans(), st.lists(st.sampled_from([-1, -2, -3, -5, 0, 4]), min_size=2, max_size=4)),
                op('minKey', B), op('maxKey', B), op('clear')]
+        OK_ = st.lists(st.sampled_from(dom), max_size=8)
+        okinds = st.sampled_from(['Set', 'TreeSet', 'Bucket', 'BTree'])
+        fns = ['union', 'intersection', 'difference', 'or', 'and', 'sub']
+        if is_map and fam[1] in 'IULQF' or (not is_map and fam[1] in 'IULQF'):
+            fns += ['weightedUnion', 'weightedIntersection']
+        if not is_map:
+            fns += ['isdisjoint']
+        # set algebra / multiunion / update with a second STORED container of the same connection as operand; both
+        # may be ghosts when the call starts
+        rw += [op('alg', st.sampled_from(fns), OK_, okinds, st.booleans(), st.booleans()),
+               op('alg', st.sampled_from(fns), OK_, okinds, st.booleans(), st.just(True))]
+        if fam[0] in F.BOUNDS:
+            rw += [op('mu', OK_, st.sampled_from(['Set', 'Bucket', 'Set', 'TreeSet', 'BTree']),
+                      st.lists(st.sampled_from(dom), max_size=2), st.booleans())] * 2
+        rw += [op('upd', st.sampled_from(['update'] + ([] if is_map else ['ior', 'iand', 'isub', 'ixor'])), OK_,
+                  st.sampled_from(['Bucket', 'BTree'] if is_map else ['Set', 'TreeSet']), st.booleans())]
+        # a live iterator stepped with cache sweeps between the steps
+        rw += [op('cursor', st.sampled_from(['__iter__', 'keys'] + (['values', 'items', 'iterkeys', 'itervalues',
+                                                                      'iteritems'] if is_map else [])),
+                  st.integers(1, 12), st.booleans())]
         if kind in F.TREE_KINDS:
             rw += [op('leaf', st.integers(0, 6), st.sampled_from(['keys', 'minKey_bad', 'maxKey_bad', 'len', 'has_key', 'maxKey']))]
         ctl = [op('commit'), op('commit'), op('minimize'), op('minimize'),
                op('deact', st.lists(st.integers(0, 30), max_size=5)),
-               op('bad', st.sampled_from(['setkey', 'setval', 'lookup', 'bound', 'minKey', 'missing', 'leafbound']))]
+               op('bad', st.sampled_from(['setkey', 'setval', 'lookup', 'bound', 'minKey', 'missing', 'leafbound',
+                                           'byValue', 'byValue_ok', 'update_badpair', 'alg_badoperand']))]
         one = st.one_of(*(rw * 2 + ctl))
         ops = draw(st.lists(one, max_size=30))
         if hook:
@@ -137,6 +158,39 @@ class CLive(H.Live):
 
     def nodes(self):
         return [o for _, o in sorted(self.conn.cache.items())]
+
+    def f16_pending(self):
+        """open finding F16 (a C06 / C04 finding): a commit now would store a leaf twice"""
+        if not self.is_tree:
+            return False
+        ghosts = [o for o in self.nodes() if o._p_state == -1]
+        w = walker.walk(self.t, self.is_map, check=False)
+        r = walker.f16_pending(w)
+        del w
+        for o in ghosts:            # looking at the structure must not change what is evicted
+            if o._p_state == 0:
+                o._p_deactivate()
+        return r
+
+    def stored_other(self, kind, toks):
+        """a second container, stored in the same connection (the commit also flushes pending changes of the
+        container under test, which does not change its contents)"""
+        o = F.cls(self.fam, kind, self.impl)()
+        keys = []
+        for tok in toks:
+            k = self._kw(F.dk(self.fam, tok))
+            if k is None:
+                continue
+            if F.is_map(kind):
+                o[k] = self.V(_some_vtok(self.fam))
+            else:
+                o.add(k)
+            if not any(k == x for x in keys):
+                keys.append(k)
+        if not self.f16_pending():      # else: the operand stays a plain in-memory container
+            self.conn.add(o)
+            self.conn.commit()
+        return o, keys
 
     def sweep(self):
         import gc
@@ -246,6 +300,120 @@ def _special(lv, op, ctx, i):
         return call, want, 'eq'
     if name == 'isdisjoint_self':
         return (lambda: t.isdisjoint(t)), ('ok', not m), 'truth'
+    if name == 'alg':
+        _, fn, toks, okind, swap, sweep = op
+        if fn == 'isdisjoint':
+            swap = False            # only sets have the method; the other operand may be of any kind
+        if fn.startswith('weighted') and lv.is_map and any(not (-1000 <= v <= 1000) for v in m.values()):
+            # value arithmetic that leaves the type's range is not specified (C12 excludes it too)
+            fn = {'weightedUnion': 'union', 'weightedIntersection': 'intersection'}[fn]
+        other, okeys = lv.stored_other(okind, toks)
+        mine = list(sk)
+        a, b = (other, t) if swap else (t, other)
+        ka, kb = (okeys, mine) if swap else (mine, okeys)
+
+        def has(k, ks):
+            return any(k == x for x in ks)
+        if fn in ('union', 'or', 'weightedUnion'):
+            want = sorted(ka + [k for k in kb if not has(k, ka)], key=F.sortkey)
+        elif fn in ('intersection', 'and', 'weightedIntersection'):
+            want = sorted([k for k in ka if has(k, kb)], key=F.sortkey)
+        elif fn in ('difference', 'sub'):
+            want = sorted([k for k in ka if not has(k, kb)], key=F.sortkey)
+        else:
+            want = not any(has(k, kb) for k in ka)
+        if fn in ('or', 'and', 'sub'):
+            import operator
+            f = {'or': operator.or_, 'and': operator.and_, 'sub': operator.sub}[fn]
+        elif fn == 'isdisjoint':
+            f = lambda x, y: x.isdisjoint(y)
+        else:
+            f = F.fn(fam, fn, lv.impl)
+            if f is None:
+                return (lambda: None), ('ok', None), 'eq'
+
+        def call():
+            if sweep:
+                lv.conn.minimize()
+            r = f(a, b)
+            if fn == 'isdisjoint':
+                return bool(r)
+            if fn.startswith('weighted'):
+                r = r[1]
+            return list(r.keys())
+        return call, ('ok', want), 'eq'
+    if name == 'mu':
+        _, toks, okind, extra, sweep = op
+        mu = F.fn(fam, 'multiunion', lv.impl)
+        other, okeys = lv.stored_other(okind, toks)
+        ex = [F.dk(fam, x) for x in extra]
+        want = sorted(set(sk) | set(okeys) | set(ex))
+
+        def call():
+            if sweep:
+                lv.conn.minimize()
+            return list(mu([other] + ex[:1] + [t] + ex[1:]))
+        return call, ('ok', want), 'eq'
+    if name == 'upd':
+        _, how, toks, okind, sweep = op
+        other, okeys = lv.stored_other(okind, toks)
+        ov = lv.V(_some_vtok(fam)) if lv.is_map else None
+
+        def call():
+            if sweep:
+                lv.conn.minimize()
+            if how == 'update':
+                t.update(other)
+                for k in okeys:
+                    m[k] = ov
+            elif how == 'ior':
+                t.__ior__(other)
+                for k in okeys:
+                    m[k] = None
+            elif how == 'iand':
+                t.__iand__(other)
+                for k in list(m):
+                    if not any(k == x for x in okeys):
+                        del m[k]
+            elif how == 'isub':
+                t.__isub__(other)
+                for k in okeys:
+                    m.pop(k, None)
+            else:
+                t.__ixor__(other)
+                for k in okeys:
+                    if k in m:
+                        del m[k]
+                    else:
+                        m[k] = None
+            return list(other.keys()) == sorted(okeys, key=F.sortkey)       # the operand is only read
+        return call, ('ok', True), 'eq'
+    if name == 'cursor':
+        _, meth, nsteps, sweep = op
+        if meth in ('__iter__', 'keys', 'iterkeys'):
+            seq = list(sk)
+        elif meth in ('values', 'itervalues'):
+            seq = [m[k] for k in sk]
+        else:
+            seq = [(k, m[k]) for k in sk]
+        want = seq[:nsteps] + (['stop'] if nsteps > len(seq) else [])
+        lv.view_sticky = None
+
+        def call():
+            it = iter(t) if meth == '__iter__' else iter(getattr(t, meth)())
+            out = []
+            for j in range(nsteps):
+                if sweep:
+                    lv.conn.minimize()
+                try:
+                    out.append(next(it))
+                except StopIteration:
+                    out.append('stop')
+                    break
+                if lv.view_sticky is None and lv.conn.sticky():
+                    lv.view_sticky = 'step %d of a live %s iterator' % (j, meth)
+            return out
+        return call, ('ok', want), 'eq'
     return None
 
 
@@ -279,7 +447,10 @@ def run_case(case, ctx):
                    'prior_insweep': bool(getattr(lv, 'incmp_sweeps', 0))}
             desc = 'step %d %r on %s%s(%s, sizes %s)' % (i, op, lv.fam, lv.kind, lv.impl, cfg.get('sizes'))
             if name == 'commit':
-                lv.conn.commit()
+                if lv.f16_pending():
+                    ctx.exclude('commit skipped: shape of open finding F16')
+                else:
+                    lv.conn.commit()
                 continue
             if name == 'minimize':
                 lv.conn.minimize()
@@ -320,7 +491,9 @@ def run_case(case, ctx):
                     P.arm(False)
             else:
                 got, want, mode = lv.step(op)
-            if name == 'view' and getattr(lv, 'view_sticky', None):
+            if name in ('alg', 'mu', 'upd', 'cursor'):
+                classes.append('%s:%s' % (name, op[1] if name in ('alg', 'upd', 'cursor') else op[2]))
+            if name in ('view', 'cursor') and getattr(lv, 'view_sticky', None):
                 classes.append('view:sticky')
                 ctx.mismatch('%s: node(s) left pinned against eviction (sticky) after %s, before the sequence was '
                              'iterated' % (desc, lv.view_sticky), dict(sig, what='sticky', view=True))
@@ -346,6 +519,9 @@ def run_case(case, ctx):
                              % (desc, ' with a cache sweep inside comparison #%d' % sweep_at if fired else '', c, mc),
                              dict(sig, what='contents'), recoverable=False)
         # end: everything evictable, contents and structure intact
+        if lv.f16_pending():
+            ctx.exclude('final commit skipped: shape of open finding F16')
+            return nontrivial, classes
         lv.conn.commit()
         lv.conn.minimize()
         left = [o for o in lv.nodes() if o._p_state not in (-1,)]
@@ -400,6 +576,19 @@ def _bad(lv, which, desc, sig, ctx, classes):
                 t._firstbucket.maxKey(bk)
             else:
                 t.maxKey(bk)
+        elif which == 'byValue':
+            if lv.is_map and bv is not None:
+                t.byValue(bv)
+        elif which == 'byValue_ok':
+            if lv.is_map and fam[1] in 'IULQF':
+                t.byValue(lv.V(_some_vtok(fam)))
+        elif which == 'update_badpair':
+            if lv.is_map:
+                t.update([(bk, lv.V(_some_vtok(fam)))])
+            else:
+                t.update([bk])
+        elif which == 'alg_badoperand':
+            F.fn(fam, 'union', lv.impl)(t, [bk])
         elif which == 'missing':
             if missing in lv.model:
                 return
